@@ -106,6 +106,12 @@ def build(extra_rewrites=None, lock_overlay=False, buffer_min=None, quiet=True):
             raise Inconclusive("module file missing: " + modfile)
         with open(p, "a") as fh:
             fh.write('\n#[cfg(kani)]\n#[path = "verif/%s"]\npub(crate) mod vacc;\n' % shim)
+    # 1z. which RwLock the harnesses name (std's, or the instrumented one of the `lock` variant)
+    with open(os.path.join(hdst, "lockty.rs"), "w") as fh:
+        if lock_overlay:
+            fh.write("pub use super::vlock::RwLock;\npub fn live_guards<T>(l: &RwLock<T>) -> u32 { l.live_guards() }\n")
+        else:
+            fh.write("pub use std::sync::RwLock;\npub fn live_guards<T>(_l: &RwLock<T>) -> u32 { 0 }\n")
     # 1a. generated directory shape instances
     from . import shapes
     shapes.write_rs(os.path.join(hdst, "h_dir_gen.rs"))
@@ -164,9 +170,9 @@ def build(extra_rewrites=None, lock_overlay=False, buffer_min=None, quiet=True):
         ]:
             p = os.path.join(src, rel)
             text = open(p).read()
-            if text.count(old) != 1:
-                raise Inconclusive("%s: lock import line not found exactly once" % rel)
-            open(p, "w").write(text.replace(old, new))
+            if text.count(old) < 1:
+                raise Inconclusive("%s: lock import line not found" % rel)
+            open(p, "w").write(text.replace(old, new, 1))  # first occurrence: the module's own import (a second one may sit in its #[cfg(test)] mod)
             n += 1
         info["rewrites"]["std::sync::RwLock->instrumented lock"] = n
     for (rel, old, new, count) in (extra_rewrites or []):
